@@ -119,6 +119,44 @@ def spec_bytes(rng, s, e, maxlen, fill=None):
     return bs
 
 
+def sparse_bits(rng, n):
+    """n random bits in which most 2-bit groups are zero: the fields of a specification then take small values (register 0..3,
+    mode 0/1, the status / pc register numbers ...) far more often than under uniform bits"""
+    v = 0
+    for k in range(0, n, 2):
+        if rng.random() < 0.45:
+            v |= rng.getrandbits(2) << k
+    return v
+
+
+def word_sweep(name, specs, ml, phase, stride):
+    """small instruction sets with 8/16-bit opcode words: the first two bytes run over a 1/stride share of all 65536 values
+    (share selected by phase), followed by distinct filler bytes - every register / mode / constant-generator combination
+    of a 16-bit ISA is a point of this space"""
+    if len(specs) > 450 or ml > 8 or min(s.fix.size for s in specs) > 16:
+        return []
+    filler = bytes([0x34, 0x12, 0x78, 0x56, 0xBC, 0x9A, 0xF0, 0xDE, 0x21, 0x43])
+    return [bytes([w & 0xFF, w >> 8]) + filler[:ml] for w in range(phase % stride, 65536, stride)]
+
+
+def leb_sweep(rng, specs, ml):
+    """byte-coded instruction sets with variable-length (LEB128) immediates (wasm, dwarf): every opcode byte, followed by
+    every small second byte (sub-opcodes, short immediates) and some large ones, followed by immediates of 1, 2 and 3 bytes
+    in every order"""
+    if not any(s.size == 0 for s in specs) or min(s.fix.size for s in specs) > 8 or len(specs) > 450:
+        return []
+    fillers = [bytes([0x34, 0x12, 0x56, 0x07, 0x11, 0x22, 0x33, 0x44, 0x55, 0x66]),
+               bytes([0x81, 0x01, 0x02, 0x83, 0x84, 0x05, 0x06, 0x87, 0x08, 0x09]),
+               bytes([0x01, 0x82, 0x03, 0x04, 0x85, 0x86, 0x07, 0x08, 0x09, 0x0A]),
+               bytes([0x81, 0x82, 0x03, 0x04, 0x85, 0x06, 0x07, 0x08, 0x09, 0x0A])]
+    out = []
+    for b0 in range(256):
+        for b1 in list(range(32)) + [rng.randrange(32, 256) for _ in range(8)]:
+            for f in fillers:
+                out.append(bytes([b0, b1]) + f)
+    return out
+
+
 X86_PREFIXES = [0x66, 0x67, 0xf2, 0xf3, 0x2e, 0x36, 0x3e, 0x26, 0x64, 0x65, 0xf0]
 
 
@@ -143,6 +181,15 @@ def gen_inputs(rng, name, dis, specs, nrandom, nspec):
                 k = rng.choice(fb)
                 v = int.from_bytes(b[::e], "little") ^ (1 << k)
                 out.append(("spec-neighbour", v.to_bytes(len(b), "little")[::e] + tail))
+        if len(specs) <= 450:
+            # small instruction sets: more fills per specification, sparse ones included, with tails of several kinds
+            for j in range(16 if len(specs) <= 250 else 6):
+                bb = spec_bytes(rng, s, e, ml, fill=sparse_bits(rng, s.fix.size) if j % 2 == 0 else None)
+                # tails: uniform bytes, sparse bytes, and bytes around the LEB128 continuation bit (immediates of 1, 2, 3 bytes)
+                tl = [bytes(rng.getrandbits(8) for _ in range(ml + 2)), bytes(sparse_bits(rng, 8) for _ in range(ml + 2)),
+                      bytes(rng.choice([0x81, 0x01, 0x82, 0x7f, 0x80, 0x02]) for _ in range(ml + 2)),
+                      bytes(rng.choice([0x81, 0x01, 0x82, 0x7f, 0x80, 0x02]) for _ in range(ml + 2))][j % 4]
+                out.append(("spec-sparse", bb + tl))
         if name in ("x86_x86", "x64_x64") and rng.random() < 0.5:
             pf = bytes(rng.choice(X86_PREFIXES + ([0x40 + rng.randrange(16)] if name == "x64_x64" else []))
                        for _ in range(rng.choice([1, 1, 2, 3])))
